@@ -51,8 +51,11 @@ def _scen(rng, kind, out, sn, cn, ch, sh, herr=None, mods=None, extra=True):
     tag = 'obs %s/%s sn=%d cn=%d ch=%d sh=%d %s/%s mods=%s rpcs=%s' % (
         kind, out if herr is None else out + ':' + herr, sn, cn, ch, sh, cmode, smode, mods or '-',
         ','.join('%s:%s' % (r['kind'], r['out']) for r in rpcs))
+    eof = any(r['out'] in ('cread', 'dead') for r in rpcs) and rng.random() < 0.5      # the failing reads report io.EOF
+    if eof:
+        tag += ' eof'
     return dict(fam='C20', runner='observers', tag=tag, cn=cn, cmode=cmode, sn=sn, smode=smode, ch=ch, sh=sh,
-                mods=mods, rpcs=rpcs,
+                mods=mods, rpcs=rpcs, eof=eof,
                 steps=[dict(op='rpc:' + r['out'], kind=r['kind'], n=r['n'], herr=r.get('herr', '')) for r in rpcs]
                 + [dict(op='cfg', cn=cn, sn=sn, ch=ch, sh=sh, cmode=cmode, smode=smode, mods=mods)])
 
